@@ -6,7 +6,9 @@ Driver handlers of C09's `abi` and `autoreceive` streams.
   abi <abi> <method> <call data hex>                                  → the decoder model's answer (Model/Abi.lean `runCase`)
   ar-recv <contract.method> <sender> <token> <amount> <status> <same|changed> <n> (<to> <token> <amount>)*n
                                                                       → "ok" iff the observed receive is "applied, or exactly
-                                                                        refunded with unchanged storage" (Ledger.refundOf)
+                                                                        refunded with unchanged storage" (Ledger.refundOf);
+                                                                        "applied" with a positive amount demands an effect:
+                                                                        storage changed or a descendant sent (except Donate)
 -/
 namespace ZV.Driver
 open ZV
@@ -27,10 +29,15 @@ def parseArDescs : List String → Option (List (String × String × Nat))
       pure ((a, t, n) :: r)
   | _ => none
 
+/-- The method kinds whose successful receive keeps an amount without writing contract storage: `Donate` of the common ABI
+    (the credit of the amount is its whole effect). -/
+def arKeepsAmountWithoutEffect (label : String) : Bool := label.endsWith ".Donate"
+
 /-- The C09 sentence on one observed contract receive, with the refund shape of the ledger model (`Ledger.refundOf`:
-    `[(sender, token, amount)]` when the amount is positive, `[]` otherwise). Names are compared as strings. -/
+    `[(sender, token, amount)]` when the amount is positive, `[]` otherwise). Names are compared as strings. A receive with
+    status 1 that kept a positive amount must show an effect (storage changed or a descendant block), `Donate` excepted. -/
 def pureArRecv : List String → Option String
-  | "ar-recv" :: _label :: sender :: tok :: amount :: status :: same :: n :: descs => do
+  | "ar-recv" :: label :: sender :: tok :: amount :: status :: same :: n :: descs => do
       let amount ← amount.toNat?
       let status ← status.toNat?
       let n ← n.toNat?
@@ -39,7 +46,7 @@ def pureArRecv : List String → Option String
       else
         let refund : List (String × String × Nat) := if amount > 0 then [(sender, tok, amount)] else []
         let verdict :=
-          if status = 1 then true
+          if status = 1 then amount == 0 || same != "same" || n > 0 || arKeepsAmountWithoutEffect label
           else if status = 2 then ds == refund && same == "same"
           else false
         if same ≠ "same" ∧ same ≠ "changed" then none
